@@ -285,6 +285,97 @@ HEADER = ("From Coq Require Import List NArith ZArith.\n"
           "Import ListNotations.\nLocal Open Scope N_scope.\n")
 
 
+def run_harness(ck, binp, extra, timeout=3000):
+    rc, out, err = vlib.sh2([binp] + extra, timeout=timeout)
+    if rc != 0:
+        ck.broken.append({"what": "harness run failed", "detail": err[-1500:]})
+    cases, summary = [], None
+    for line in out.splitlines():
+        if line.startswith("{"):
+            o = json.loads(line)
+            if o.get("summary"):
+                summary = o
+            else:
+                cases.append(o)
+    return cases, summary
+
+
+def coq_mismatches(ck, cases, idxs, tag, nshard=16):
+    """Evaluate Dag/DagCorr.v on cases[idxs]; returns the sorted list of
+    disagreeing indices, or None if the evaluation itself failed."""
+    shards = [idxs[s::nshard] for s in range(nshard)]
+    shards = [s for s in shards if s]
+
+    def ev(job):
+        si, part = job
+        txt = (HEADER + "Definition cases : list ccase := [\n  "
+               + ";\n  ".join(to_coq(cases[i]) for i in part) + "\n].\n"
+               "Definition M := Eval vm_compute in mismatches cases.\nPrint M.\n")
+        rc, out = ck.coq_eval("%s_%d" % (tag, si), txt, timeout=3000)
+        got = vlib.parse_coq_list_of_nat(out, "M") if rc == 0 else None
+        return si, part, got, out
+
+    mism, ok = [], True
+    with ThreadPoolExecutor(max_workers=min(nshard, os.cpu_count() or 4)) as ex:
+        for si, part, got, out in ex.map(ev, list(enumerate(shards))):
+            if got is None:
+                ck.broken.append({"what": "correspondence evaluation failed", "shard": "%s_%d" % (tag, si),
+                                  "detail": out[-1500:]})
+                ok = False
+                continue
+            mism += [part[j] for j in got]
+    return sorted(mism) if ok or mism else None
+
+
+def as_general(c):
+    """A case in the general family (so that nodes and edges can be removed)."""
+    if c.get("f") != "m":
+        return {"s": c["s"], "f": "g", "names": list(c.get("names") or []), "keys": list(c.get("keys") or []),
+                "adj": [list(a) for a in c.get("adj") or []]}
+    n = c.get("n", 0)
+    keys, adj = case_graph(c)
+    return {"s": c["s"], "f": "g", "names": ["a", "b", "c", "d", "e", "f"][:n], "keys": keys,
+            "adj": [adj[k] for k in keys]}
+
+
+def shrink(ck, binp, case, fails, budget=40):
+    """Greedy delta debugging: drop a node or one list entry while the case
+    still fails in the same way (fails(list of observed cases) -> index or
+    None).  The real code is re-run on every candidate."""
+    best = as_general(case)
+    last = None
+    d = os.path.join(vlib.BUILD, "cases", ck.pid)
+    os.makedirs(d, exist_ok=True)
+    for _ in range(budget):
+        keys, adjl = best["keys"], best["adj"]
+        cands = []
+        for p in range(len(keys)):
+            cands.append(dict(best, keys=keys[:p] + keys[p + 1:],
+                              adj=[[t for t in a if t != keys[p]] for a in adjl[:p] + adjl[p + 1:]]))
+        for p in range(len(keys)):
+            for q in range(len(adjl[p])):
+                a2 = [list(a) for a in adjl]
+                del a2[p][q]
+                cands.append(dict(best, adj=a2))
+        if not cands or len(cands) > 4000:
+            break
+        fn = os.path.join(d, "shrink.jsonl")
+        with open(fn, "w") as f:
+            for c in cands:
+                f.write(json.dumps(c) + "\n")
+        rc, out, err = vlib.sh2([binp, "-cases", fn, "-timeout", "5s"], timeout=600)
+        got = [json.loads(l) for l in out.splitlines() if l.startswith("{")]
+        if len(got) != len(cands):
+            break
+        pick = fails(got)
+        if pick is None:
+            break
+        last = got[pick]
+        best = {"s": last["s"], "f": "g", "names": last.get("names") or [], "keys": last.get("keys") or [],
+                "adj": last.get("adj") or []}
+    return last
+
+
 def run(ck):
     nrand = 300 if not ck.thorough else 3000
     ck.gen()
@@ -300,13 +391,22 @@ def run(ck):
     binp = ck.build_harness("c19")
     cases = []
     if binp:
-        args = [binp, "-seed", str(ck.seed), "-n", str(nrand), "-n4=true", "-big=%s" % ("true" if ck.thorough else "false")]
-        rc, out, err = vlib.sh2(args, timeout=3000)
-        if rc != 0:
-            ck.broken.append({"what": "harness run failed", "detail": err[-1500:]})
-        for line in out.splitlines():
-            if line.startswith("{"):
-                cases.append(json.loads(line))
+        cases, _ = run_harness(ck, binp, ["-seed", str(ck.seed), "-n", str(nrand), "-n4=true",
+                                         "-big=%s" % ("true" if ck.thorough else "false")])
+        if ck.thorough:
+            # every graph on 5 nodes against the in-harness oracles; all the acyclic ones, a seeded
+            # sample of the cyclic ones and every flagged one also go through checks/c19.py and the model
+            ex, summary = run_harness(ck, binp, ["-seed", str(ck.seed), "-exhaust", "5", "-sample", "2000",
+                                                 "-workers", str(max(2, (os.cpu_count() or 4) - 2))], timeout=6000)
+            if summary:
+                ck.coverage["exhaustive_5_nodes"] = summary
+                st = ck.streams.setdefault("all-5-nodes-harness-oracle", {"n": 0, "nontrivial": 0})
+                st["n"] += summary["graphs"] - len(ex)
+                st["nontrivial"] += summary["graphs"] - len(ex)
+                ck.evaluations += summary["graphs"] - len(ex)
+            else:
+                ck.broken.append({"what": "exhaustive 5-node run gave no summary"})
+            cases += ex
     ck.log("harness: %d cases" % len(cases))
 
     # implementation-only oracle (also the search for a failing input)
@@ -314,51 +414,75 @@ def run(ck):
     for idx, c in enumerate(cases):
         keys, adj = case_graph(c)
         ck.count(c["s"], key=(tuple(keys), tuple(tuple(adj[k]) for k in keys)), trivial=len(keys) == 0)
-        for cls, why in impl_oracle(c):
+        found = impl_oracle(c)
+        msg = c["obs"].get("msg", "")
+        if msg.startswith("harness-oracle: ") and not found:
+            found = [("harness-oracle:" + msg[len("harness-oracle: "):], "the in-harness oracle rejects this graph")]
+        for cls, why in found:
             failing.setdefault(idx, []).append(cls)
-            ck.violation("impl:" + cls, why,
-                         {"case": c, "expected": "the graph-theoretic answer (independent oracle in checks/c19.py)",
-                          "observed": c["obs"]})
     for c in cases[4:6] + cases[4000:4002] + cases[-2:]:
         ck.sample({k: c[k] for k in c if k != "i"})
     ck.log("oracle done: %d failing cases" % len(failing))
+
+    # one violation per failure class, on the smallest failing graph of that class, shrunk further
+    by_cls = {}
+    for idx, clss in failing.items():
+        for cls in clss:
+            n = len(case_graph(cases[idx])[0])
+            if cls not in by_cls or n < by_cls[cls][0]:
+                by_cls[cls] = (n, idx)
+    count_cls = {}
+    for clss in failing.values():
+        for cls in clss:
+            count_cls[cls] = count_cls.get(cls, 0) + 1
+    for cls, (n, idx) in sorted(by_cls.items()):
+        c = cases[idx]
+        why = [w for k, w in (impl_oracle(c) or []) if k == cls]
+        why = why[0] if why else "the in-harness oracle rejects this graph (%s)" % cls
+        small = None
+        if binp and n > 3 and not cls.startswith("no-result"):
+            def still(got, cls=cls):
+                for j, g in enumerate(got):
+                    if any(k == cls for k, _ in impl_oracle(g)):
+                        return j
+                return None
+            small = shrink(ck, binp, c, still)
+        body = {"case": small or c, "expected": "the graph-theoretic answer (independent oracle in checks/c19.py)",
+                "observed": (small or c)["obs"], "cases_of_this_class": count_cls[cls]}
+        if small:
+            body["shrunk_from"] = {k: c[k] for k in c if k not in ("obs", "i")}
+        for _ in range(count_cls[cls]):
+            ck.violation("impl:" + cls, why, body)
 
     # correspondence: the model evaluated inside Coq on the same graphs
     model_ok = all(built.get(x) for x in MODEL)
     evald = [i for i, c in enumerate(cases) if c["obs"].get("v") != "crash"]
     if evald and model_ok:
-        nshard = 16
-        shards = [evald[s::nshard] for s in range(nshard)]
-        shards = [s for s in shards if s]
-
-        def ev(job):
-            si, idxs = job
-            txt = (HEADER + "Definition cases : list ccase := [\n  "
-                   + ";\n  ".join(to_coq(cases[i]) for i in idxs) + "\n].\n"
-                   "Definition M := Eval vm_compute in mismatches cases.\nPrint M.\n")
-            rc, out = ck.coq_eval("cases_%d" % si, txt, timeout=2400)
-            got = vlib.parse_coq_list_of_nat(out, "M") if rc == 0 else None
-            return si, idxs, got, out
-
-        mism = []
-        with ThreadPoolExecutor(max_workers=min(nshard, os.cpu_count() or 4)) as ex:
-            for si, idxs, got, out in ex.map(ev, list(enumerate(shards))):
-                if got is None:
-                    ck.broken.append({"what": "correspondence evaluation failed", "shard": si, "detail": out[-1500:]})
-                    continue
-                mism += [idxs[j] for j in got]
-        mism.sort()
-        ck.coverage["correspondence_cases"] = len(evald)
-        ck.coverage["correspondence_mismatches"] = len(mism)
-        for i in mism[:50]:
-            c = cases[i]
-            ck.broken.append({"what": "correspondence: model and implementation disagree",
-                              "stream": c["s"], "case_index": i})
-            if i not in failing:
+        mism = coq_mismatches(ck, cases, evald, "cases")
+        if mism is not None:
+            ck.coverage["correspondence_cases"] = len(evald)
+            ck.coverage["correspondence_mismatches"] = len(mism)
+            shrunk_one = False
+            for i in mism[:50]:
+                c = cases[i]
+                ck.broken.append({"what": "correspondence: model and implementation disagree",
+                                  "stream": c["s"], "case_index": i})
+            pure = sorted((len(case_graph(cases[i])[0]), i) for i in mism if i not in failing)
+            for rank, (n, i) in enumerate(pure[:50]):
+                c = cases[i]
+                small = None
+                if rank == 0 and binp and n > 3:
+                    def still(got):
+                        bad = coq_mismatches(ck, got, [j for j, g in enumerate(got)
+                                                       if g["obs"].get("v") != "crash"], "shrink", nshard=4)
+                        return bad[0] if bad else None
+                    small = shrink(ck, binp, c, still, budget=15)
+                body = {"case": small or c, "model": "Dag/Model.v evaluated by vm_compute disagrees",
+                        "observed": (small or c)["obs"]}
+                if small:
+                    body["shrunk_from"] = {k: c[k] for k in c if k not in ("obs", "i")}
                 ck.violation("corr:%s:%s" % (c["s"], c["obs"].get("v")),
-                             "implementation output differs from the proved model of dags",
-                             {"case": c, "model": "Dag/Model.v evaluated by vm_compute disagrees",
-                              "observed": c["obs"]})
+                             "implementation output differs from the proved model of dags", body)
     elif cases and not model_ok:
         ck.broken.append({"what": "model does not compile; correspondence not evaluated"})
 
